@@ -47,6 +47,8 @@ def extract():
         raise Broken("extract", "extractor-crashed", out + err)
     if not info.get("ok"):
         raise Broken("extract", info.get("item", "?"), info.get("msg", ""))
+    LAST_EXTRACT.clear()
+    LAST_EXTRACT.update(info)
     return info
 
 
@@ -255,6 +257,10 @@ class Report:
             print(f"VIOLATION property={self.pid} replay={path}{tail}")
             if unknown >= 5:
                 break
+        if LAST_EXTRACT.get("drift"):
+            self.coverage["extractor_drift"] = LAST_EXTRACT["drift"]
+        if getattr(self, "widened", None):
+            self.coverage["widened"] = self.widened
         ev = {
             "property_id": self.pid, "tier": self.tier, "seed": self.seed, "level": level,
             "coverage": self.coverage, "assumptions": self.assumptions,
@@ -288,3 +294,85 @@ def rng(seed, salt):
 
 def fen4(fen):
     return " ".join(fen.split()[:4])
+
+
+# ----------------------------------------------------------------------------- source fingerprint (widening the search)
+
+FINGERPRINT = os.path.join(VERIF, "validated_source.json")
+
+
+def _normalise_rust(text):
+    """Rust text without comments and with whitespace runs collapsed (string/char literals kept verbatim)."""
+    out = []
+    i, n = 0, len(text)
+    while i < n:
+        c = text[i]
+        if c == '"':
+            j = i + 1
+            while j < n and text[j] != '"':
+                j += 2 if text[j] == "\\" else 1
+            out.append(text[i : j + 1])
+            i = j + 1
+        elif text.startswith("//", i):
+            j = text.find("\n", i)
+            i = n if j < 0 else j
+        elif text.startswith("/*", i):
+            j = text.find("*/", i + 2)
+            i = n if j < 0 else j + 2
+        elif c == "'" and i + 2 < n and (text[i + 2] == "'" or text[i + 1] == "\\"):
+            j = text.find("'", i + 2)
+            out.append(text[i : j + 1])
+            i = j + 1
+        elif c.isspace():
+            if out and out[-1] != " ":
+                out.append(" ")
+            i += 1
+        else:
+            out.append(c)
+            i += 1
+    return "".join(out).strip()
+
+
+def source_fingerprint():
+    fp = {}
+    src = os.path.join(REPO, "src")
+    for root, _, files in sorted(os.walk(src)):
+        for fn in sorted(files):
+            if fn.endswith(".rs"):
+                p = os.path.join(root, fn)
+                rel = os.path.relpath(p, REPO)
+                with open(p, encoding="utf-8", errors="replace") as f:
+                    fp[rel] = hashlib.sha256(_normalise_rust(f.read()).encode("utf-8")).hexdigest()
+    for rel in ("zobrist_bytes.bin", "Cargo.toml", "Cargo.lock"):
+        p = os.path.join(REPO, rel)
+        if os.path.exists(p):
+            with open(p, "rb") as f:
+                fp[rel] = hashlib.sha256(f.read()).hexdigest()
+    return fp
+
+
+def changed_sources():
+    """Files of /repo whose code (comments and layout aside) differs from the tree the model was last validated
+    against (validated_source.json, committed; re-recorded by tools/record_fingerprint.py after a full
+    thorough run on that tree). A difference is NOT a finding: it only widens the quick search (more seeds)."""
+    try:
+        with open(FINGERPRINT) as f:
+            ref = json.load(f)["files"]
+    except Exception:
+        return ["(no recorded fingerprint)"]
+    cur = source_fingerprint()
+    return sorted(k for k in set(ref) | set(cur) if ref.get(k) != cur.get(k))
+
+
+LAST_EXTRACT = {}
+
+
+def widen_reasons():
+    why = []
+    ch = changed_sources()
+    if ch:
+        why.append("source differs from the validated fingerprint: " + ", ".join(ch[:6]))
+    dr = LAST_EXTRACT.get("drift") or []
+    if dr:
+        why.append("extractor drift: " + ", ".join(sorted({d["item"] for d in dr})[:8]))
+    return why
